@@ -86,6 +86,7 @@ class Gen:
         self.rels: dict[str, list[tuple[str, str, str, bool]]] = {}
         self.cur_part = "document"
         self.rid_counter = 0
+        self.rid_by_part: dict[str, int] = {}
         self.comment_ids: list[str] = []
         self.note_refs: dict[str, list[str]] = {"footnote": [], "endnote": []}
         self.images: dict[str, bytes] = {}
@@ -127,8 +128,11 @@ class Gen:
         self.features.add(f)
 
     def new_rid(self) -> str:
-        self.rid_counter += 1
-        return f"rId{self.rid_counter}"
+        # relationship ids are unique per part only: every part starts again at rId1, so
+        # the same id means different things in different parts
+        n = self.rid_by_part.get(self.cur_part, 0) + 1
+        self.rid_by_part[self.cur_part] = n
+        return f"rId{n}"
 
     def add_rel(self, type_: str, target: str, external=False) -> str:
         rid = self.new_rid()
@@ -748,6 +752,7 @@ class Pkg:
     binaries: dict[str, bytes] = field(default_factory=dict)
     features: set[str] = field(default_factory=set)
     order: list[str] = field(default_factory=list)
+    dir_entries: bool = False      # explicit folder entries, as zip -r and some converters write
 
     def rels_xml(self, rows) -> bytes:
         root = etree.Element(f"{{{REL_NS}}}Relationships", nsmap={None: REL_NS})
@@ -779,7 +784,15 @@ class Pkg:
     def to_bytes(self) -> bytes:
         bio = io.BytesIO()
         with zipfile.ZipFile(bio, "w", zipfile.ZIP_DEFLATED) as z:
+            seen_dirs = set()
             for name, data in self.members().items():
+                if self.dir_entries:
+                    parts = name.split("/")[:-1]
+                    for k in range(1, len(parts) + 1):
+                        d = "/".join(parts[:k]) + "/"
+                        if d not in seen_dirs:
+                            seen_dirs.add(d)
+                            z.writestr(zipfile.ZipInfo(d), b"")
                 z.writestr(name, data)
         return bio.getvalue()
 
@@ -795,28 +808,32 @@ def gen_package(rng: random.Random, knobs: Knobs | None = None, ns=None) -> Pkg:
     doc = g.body_part("document", "document")
     pkg.parts["word/document.xml"] = doc
     doc_rels = g.rels.setdefault("document", [])
+
+    def doc_rid():
+        g.cur_part = "document"
+        return g.new_rid()
     part_rels: dict[str, str] = {}
     for kind, tag in (("header", "hdr"), ("footer", "ftr")):
         for i in range(g.r.choice([0, 0, 1, 2])):
             name = f"{kind}{i + 1}.xml"
             pkg.parts[f"word/{name}"] = g.body_part(name, tag)
-            doc_rels.append((g.new_rid(), REL_T + kind, name, False))
+            doc_rels.append((doc_rid(), REL_T + kind, name, False))
             part_rels[name] = f"word/_rels/{name}.rels"
             g.feat(kind + "_part")
     for kind in ("footnote", "endnote"):
         if g.note_refs[kind] or g.p(k.notes * 0.5):
             name = f"{kind}s.xml"
             pkg.parts[f"word/{name}"] = g.notes_part(kind)
-            doc_rels.append((g.new_rid(), REL_T + kind + "s", name, False))
+            doc_rels.append((doc_rid(), REL_T + kind + "s", name, False))
             part_rels[kind + "s"] = f"word/_rels/{name}.rels"
     if g.comment_ids or g.p(0.1):
         if g.p(0.95):
             pkg.parts["word/comments.xml"] = g.comments_part()
-            doc_rels.append((g.new_rid(), REL_T + "comments", "comments.xml", False))
+            doc_rels.append((doc_rid(), REL_T + "comments", "comments.xml", False))
             part_rels["comments"] = "word/_rels/comments.xml.rels"
     if has_numbering:
-        doc_rels.append((g.new_rid(), REL_T + "numbering", "numbering.xml", False))
-    doc_rels.append((g.new_rid(), REL_T + "styles", "styles.xml", False))
+        doc_rels.append((doc_rid(), REL_T + "numbering", "numbering.xml", False))
+    doc_rels.append((doc_rid(), REL_T + "styles", "styles.xml", False))
     pkg.parts["word/styles.xml"] = etree.Element(g.q("w", "styles"), nsmap={"w": g.ns["w"]})
     # relationships
     root_rels = [("rId1", REL_T + "officeDocument", "word/document.xml", False)]
@@ -842,5 +859,8 @@ def gen_package(rng: random.Random, knobs: Knobs | None = None, ns=None) -> Pkg:
         pkg.binaries[f"word/media/{name}"] = data
     if g.p(0.2):
         pkg.binaries["customXml/item1.xml"] = b"<x/>"
+    if g.p(0.2):
+        pkg.dir_entries = True
+        g.feat("dir_entries")
     pkg.features = g.features
     return pkg
